@@ -5,6 +5,8 @@ from . import core
 from .core import log
 
 def evidence_path(pid):
+    if core.REPO != "/repo":       # pre-testing a seeded change in a scratch worktree: never touch the committed evidence
+        return os.path.join(core.ROOT, ".build", "evidence_pretest", pid + ".json")
     return os.path.join(core.ROOT, "evidence", pid + ".json")
 
 class Run:
